@@ -75,10 +75,16 @@ def check_conversion(ctx, wm, dom_m, st0, seq, agents, joint, wit):
                 return False
         nxt = magen.commuting(wm, dom_m, st, members) if len(members) <= 4 else magen.seq_apply(wm, dom_m, st, members)
         if nxt is None:
+            info = dict(wit, step=i, members=[[a] + c for a, c in members], pre_state=model.show_state(st))
+            # two members changing the same numeric function: the one interference test of the converter that works
+            # today.  Never attributed to the recorded finding.
+            tg = [numeric_targets(dom_m.actions[an], model.binding(dom_m.actions[an], c)) for an, c in members]
+            if any(tg[x] & tg[y] for x in range(len(tg)) for y in range(x + 1, len(tg))):
+                ctx.violation("convert:joint-step-groups-actions-that-change-the-same-numeric-function", info)
+                return False
             # every member is applicable in the pre-state (checked above) but the members do not commute: this is the
             # recorded finding KF-CONVERTER-INTERFERENCE (its interference test is vacuous); nothing else is attributed to it
-            ctx.known_finding("KF-CONVERTER-INTERFERENCE", dict(wit, step=i, members=[[a] + c for a, c in members],
-                                                                pre_state=model.show_state(st)))
+            ctx.known_finding("KF-CONVERTER-INTERFERENCE", info)
             return False
         st = nxt
     if model.canon_state(st) != model.canon_state(final_seq):
@@ -147,6 +153,13 @@ def gen_plan(rng, wm, dom_m, w, st0, length):
         cs = [c for c in cs if set(c[2][1]) == set(st[1])]
         if not cs:
             break
+        if seq and rng.random() < 0.4:
+            # hostile bias: follow an action by one of another agent that writes a numeric function the first one writes too
+            # (they must never share a joint step), or that reads what it writes
+            pa, pc = seq[-1]
+            t_prev = numeric_targets(dom_m.actions[pa], model.binding(dom_m.actions[pa], pc))
+            clash = [c for c in cs if c[1][0] != pc[0] and numeric_targets(dom_m.actions[c[0]], model.binding(dom_m.actions[c[0]], c[1])) & t_prev]
+            cs = clash or cs
         an, call, nxt = rng.choice(cs)
         seq.append((an, call))
         st = nxt
@@ -158,7 +171,7 @@ def run(ctx):
     from pddl_plus_parser.multi_agent import PlanConverter
     rng = ctx.rng("c15")
     thorough = ctx.tier == "thorough"
-    for wi in range(24 if thorough else 3):
+    for wi in range(24 if thorough else 8):
         w = magen.ma_world(rng)
         dtext = w.domain_text()
         try:
@@ -168,7 +181,7 @@ def run(ctx):
             continue
         dom_m = model.RefDomain.from_text(dtext)
         wm = model.World(dom_m, w.objects)
-        for pi in range(8 if thorough else 3):
+        for pi in range(8 if thorough else 4):
             st0 = magen.ma_initial_state(rng, w)
             ptext = sx.plain(w.problem_ast(st0))
             seq = gen_plan(rng, wm, dom_m, w, st0, rng.choice([2, 4, 8, 20, 40]) if thorough else rng.choice([2, 5, 12]))
